@@ -39,8 +39,127 @@ def run(chk):
     # policy that uses it)
     from .c16 import rule_K4, cached_functions
     rule_K4(chk, chk.prog, cached_functions(chk.prog))
+    run_N9(chk)
+    run_N10(chk)
+    run_N11(chk)
+
+def run_N10(chk):
+    """N10: the no-fusion kernel pairs every block of a with every block of b that shares the contracted charges: within one group of `da` x `db`
+    pairs the indices of a vary slowly (each repeated db times: a column broadcast / np.repeat) and those of b vary fast (the list tiled da
+    times: a row broadcast / np.tile).  The two stores of one iteration use complementary forms; two equal forms pair block i of a with
+    block i of b only (and, for da != db, lists of the wrong length)."""
+    import ast as _ast
+    from ..core import astutil as A_
+    prog = chk.prog
+    chk.rule("N10", "the all-pairs index lists of the no-fusion kernel are built by complementary broadcasts (one repeated, one tiled)", floor=0)
+    f = prog.func("yastn.tensor._contractions", "_meta_tensordot_nf")
+
+    def form(v):
+        """'col' (varies slowly: each entry repeated) / 'row' (varies fast: the list tiled) / None"""
+        if isinstance(v, _ast.Call):
+            nm = (A_.call_name(v) or "").split(".")[-1]
+            ca = A_.callee_attr(v)
+            if nm == "repeat":
+                return "col"
+            if nm == "tile":
+                return "row"
+            if ca == "reshape" and len(v.args) == 2:
+                a0, a1 = A_.neg_const(v.args[0]), A_.neg_const(v.args[1])
+                if a1 == 1 and a0 != 1:
+                    return "col"
+                if a0 == 1 and a1 != 1:
+                    return "row"
+        return None
+    for lp in _ast.walk(f.node):
+        if not isinstance(lp, _ast.For):
+            continue
+        stores = [st for st in lp.body if isinstance(st, _ast.Assign) and isinstance(st.targets[0], _ast.Subscript) and "ind_" in A_.text(st.targets[0])]
+        if len(stores) != 2:
+            continue
+        forms = [form(st.value) for st in stores]
+        if None in forms:
+            chk.note(f"N10: `{A_.short(stores[0], 50)}` / `{A_.short(stores[1], 50)}`: broadcast form not known to the rule: not decided")
+            continue
+        chk.verdict("N10", (f, stores[1]), f"_meta_tensordot_nf: pairing by ({forms[0]}, {forms[1]})", True if set(forms) == {"col", "row"} else False,
+                    f"_meta_tensordot_nf(): `{A_.short(stores[0], 60)}` and `{A_.short(stores[1], 60)}` broadcast the two index lists the same way ({forms[0]}): "
+                    f"instead of all da x db pairs of blocks the lists pair entries position by position -- contributions of other block pairs are lost "
+                    f"(only under tensordot_policy='no_fusion', and only when a group has more than one block on both sides)")
+
+
+def run_N11(chk):
+    """N11: the fast paths `_no_change_in_*` accept a layout when the pieces follow each other without gaps.  A scan
+    `for ..: if piece[0] != low: return False; low = piece[1]` proves that there is no gap *between* pieces; that nothing is missing
+    *behind the last one* takes the comparison of `low` with the total right after the loop.  A scan without it accepts every prefix."""
+    import ast as _ast
+    from ..core import astutil as A_
+    prog = chk.prog
+    chk.rule("N11", "every contiguity scan of the no-change fast paths is closed by a comparison of the reached position with the total", floor=1)
+    for fname in ("_no_change_in_transpose_and_merge",):
+        f = prog.func("yastn.tensor._merging", fname)
+        for owner in _ast.walk(f.node):
+            for body in [getattr(owner, "body", None), getattr(owner, "orelse", None)]:
+                if not isinstance(body, list):
+                    continue
+                for i, lp in enumerate(body):
+                    if not isinstance(lp, _ast.For) or len(lp.body) != 2:
+                        continue
+                    t_, a_ = lp.body
+                    if not (isinstance(t_, _ast.If) and isinstance(t_.test, _ast.Compare) and isinstance(t_.test.ops[0], _ast.NotEq)
+                            and isinstance(t_.test.comparators[0], _ast.Name) and any(isinstance(x, _ast.Return) for x in t_.body)
+                            and isinstance(a_, _ast.Assign) and isinstance(a_.targets[0], _ast.Name) and a_.targets[0].id == t_.test.comparators[0].id):
+                        continue
+                    pos = a_.targets[0].id
+                    nxt = body[i + 1] if i + 1 < len(body) else None
+                    closed = isinstance(nxt, _ast.If) and isinstance(nxt.test, _ast.Compare) and any(isinstance(x, _ast.Name) and x.id == pos for x in _ast.walk(nxt.test)) \
+                        and any(isinstance(x, _ast.Return) for x in nxt.body)
+                    chk.verdict("N11", (f, lp), f"{fname}: scan `{A_.short(lp, 50)}` closed by `{A_.short(nxt, 40) if closed else '-'}`", True if closed else False,
+                                f"{fname}(): the scan `{A_.short(lp, 60)}` checks that consecutive pieces touch, but `{pos}` is not compared with the total behind "
+                                f"the loop: a layout whose pieces cover only the beginning of the data is taken for 'nothing to do' and the data is handed on "
+                                f"unmerged (the result then depends on which policy / fusion mode reaches this fast path)")
+
+
+def run_N9(chk):
+    """N9: a SlicedLeg looks its slices up by the normalised charge tuples of `t` (`_build_mask_tensor`, `_expand_partial_output`): the keys of
+    the `slices` it is given go through the same normalisation as the elements of `t`.  Keys stored as given (`dict(slices)`) are never found
+    for the documented int shorthand of one-component symmetries; the lookup falls back to the whole sector and every part of an
+    intra-sector partition takes all of it."""
+    import ast as _ast
+    import re as _re
+    from ..core import astutil as A_
+    prog = chk.prog
+    chk.rule("N9", "SlicedLeg normalises the keys of `slices` like the elements of `t`", floor=0)
+    ci = prog.cls("yastn.tensor.oe_blocksparse", "SlicedLeg")
+    f = ci.methods["__init__"]
+    tnorm = None
+    for n in _ast.walk(f.node):
+        if isinstance(n, _ast.Assign) and A_.text(n.targets[0]) == "self.t":
+            comps = [c for c in _ast.walk(n.value) if isinstance(c, (_ast.GeneratorExp, _ast.ListComp))]
+            if comps and isinstance(comps[0].generators[0].target, _ast.Name):
+                v = comps[0].generators[0].target.id
+                tnorm = _re.sub(rf"\b{v}\b", "K", A_.text(comps[0].elt))
+    if tnorm is None or tnorm == "K":
+        chk.note("N9: SlicedLeg.__init__ does not normalise the elements of t by a comprehension: not decided")
+        return
+    for n in _ast.walk(f.node):
+        if isinstance(n, _ast.Assign) and A_.text(n.targets[0]) == "self.slices" and any(isinstance(x, _ast.Name) and x.id == "slices" for x in _ast.walk(n.value)):
+            val = n.value
+            if isinstance(val, _ast.DictComp) and isinstance(val.generators[0].target, _ast.Tuple) and isinstance(val.generators[0].target.elts[0], _ast.Name):
+                kv = val.generators[0].target.elts[0].id
+                knorm = _re.sub(rf"\b{kv}\b", "K", A_.text(val.key))
+                ok = knorm == tnorm
+            elif (isinstance(val, _ast.Call) and A_.call_name(val) in ("dict", "slices.copy", "copy.copy")) or isinstance(val, _ast.Name):
+                ok = False
+                knorm = "K (keys as given)"
+            else:
+                chk.note(f"N9: `{A_.short(n, 60)}`: shape of the key normalisation not known to the rule: not decided")
+                continue
+            chk.verdict("N9", (f, n), f"SlicedLeg: keys of slices by `{knorm}`, elements of t by `{tnorm}`", True if ok else False,
+                        f"SlicedLeg.__init__: `{A_.short(n, 70)}` keeps the keys of `slices` as `{knorm}` while the elements of `t` become `{tnorm}`: an int key "
+                        f"(documented shorthand) is never found by the tuple lookups, the slice falls back to the whole sector and each part of an intra-sector "
+                        f"partition contributes the full sector (the result depends on how the unroll was specified)")
 
 MUTANTS = [
+    ('SlicedLeg keeps the keys of slices as given', 'yastn/tensor/oe_blocksparse.py', "            self.slices = {\n                (tuple(k) if hasattr(k, '__iter__') else (int(k),)): v\n                for k, v in slices.items()\n            }", '            self.slices = dict(slices)', 'N9'),
     ('break lost one level of indentation', 'yastn/tensor/oe_blocksparse.py', '                    output_unroll_info[out_ax] = (u, full_leg)\n                    break\n', '                    output_unroll_info[out_ax] = (u, full_leg)\n            break\n', 'U9'),
     ('kernel rebuilt from another kernel', 'yastn/tensor/_control_lru.py', '    _contractions._meta_tensordot_nf = lru_cache(maxsize)(_contractions._meta_tensordot_nf.__wrapped__)', '    _contractions._meta_tensordot_nf = lru_cache(maxsize)(_contractions._meta_tensordot_fc.__wrapped__)', 'K4'),
     ('diag keeps the pending permutation', 'yastn/tensor/_single.py', '    return a._replace(struct=struct, slices=slices, data=data, hfs=hfs, trans=None)\n\n\ndef remove_zero_blocks', '    return a._replace(struct=struct, slices=slices, data=data, hfs=hfs)\n\n\ndef remove_zero_blocks', 'I2'),
